@@ -13,7 +13,7 @@ from .weaver import LostAnchor
 from . import lexer
 
 ROOT = os.path.dirname(os.path.dirname(os.path.abspath(__file__)))
-GEN = os.path.join(ROOT, "generated")
+GEN = os.environ.get("VERIF_GEN") or os.path.join(ROOT, "generated")
 VERUS = os.environ.get("VERIF_VERUS", "verus")
 
 # Messages that mean "this proof obligation was not discharged".  Anything else at error level
